@@ -804,10 +804,10 @@ func (cpu *CPU) Step() (int, bool) {
 	case m_Absolute_X:
 		arg16 = cpu.Bus.nRead16_wrap(cpu.RK, cpu.PC+1)
 		if cpu.X == 1 {
-			ea = (uint32(cpu.RDBR)<<16 | uint32(arg16)) + uint32(cpu.RXl)
+			ea = ((uint32(cpu.RDBR)<<16 | uint32(arg16)) + uint32(cpu.RXl)) & 0x00ffffff // wrap on 24bits
 			pageCrossed = pagesDiffer(arg16, arg16+uint16(cpu.RXl))
 		} else {
-			ea = (uint32(cpu.RDBR)<<16 | uint32(arg16)) + uint32(cpu.RX)
+			ea = ((uint32(cpu.RDBR)<<16 | uint32(arg16)) + uint32(cpu.RX)) & 0x00ffffff // wrap on 24bits
 			pageCrossed = pagesDiffer(arg16, arg16+cpu.RX)
 		}
 		//fmt.Fprintf(&cpu.LogBuf, "m_Absolute_X: arg16 %04x EA $%06x\n", arg16, EA)
@@ -816,10 +816,10 @@ func (cpu *CPU) Step() (int, bool) {
 	case m_Absolute_Y:
 		arg16 = cpu.Bus.nRead16_wrap(cpu.RK, cpu.PC+1)
 		if cpu.X == 1 {
-			ea = (uint32(cpu.RDBR)<<16 | uint32(arg16)) + uint32(cpu.RYl)
+			ea = ((uint32(cpu.RDBR)<<16 | uint32(arg16)) + uint32(cpu.RYl)) & 0x00ffffff // wrap on 24bits
 			pageCrossed = pagesDiffer(arg16, arg16+uint16(cpu.RYl))
 		} else {
-			ea = (uint32(cpu.RDBR)<<16 | uint32(arg16)) + uint32(cpu.RY)
+			ea = ((uint32(cpu.RDBR)<<16 | uint32(arg16)) + uint32(cpu.RY)) & 0x00ffffff // wrap on 24bits
 			pageCrossed = pagesDiffer(arg16, arg16+cpu.RY)
 		}
 		//fmt.Fprintf(&cpu.LogBuf, "m_Absolute_Y: arg16 %04x EA $%06x\n", arg16, EA)
@@ -908,9 +908,9 @@ func (cpu *CPU) Step() (int, bool) {
 		arg8 = cpu.Bus.nRead(cpu.RK, cpu.PC+1)
 		ea = cpu.Bus.nRead24_wrap(0x00, uint16(arg8)+cpu.RD)
 		if cpu.X == 1 {
-			ea = ea + uint32(cpu.RYl)
+			ea = (ea + uint32(cpu.RYl)) & 0x00ffffff // wrap on 24bits
 		} else {
-			ea = ea + uint32(cpu.RY)
+			ea = (ea + uint32(cpu.RY)) & 0x00ffffff // wrap on 24bits
 		}
 
 	// ($1234, X)     - p. 291 or 5.5
@@ -945,9 +945,9 @@ func (cpu *CPU) Step() (int, bool) {
 	case m_Absolute_Long_X:
 		ea = cpu.Bus.nRead24_wrap(cpu.RK, cpu.PC+1)
 		if cpu.X == 1 {
-			ea = ea + uint32(cpu.RXl)
+			ea = (ea + uint32(cpu.RXl)) & 0x00ffffff // wrap on 24bits
 		} else {
-			ea = ea + uint32(cpu.RX)
+			ea = (ea + uint32(cpu.RX)) & 0x00ffffff // wrap on 24bits
 		}
 		//fmt.Fprintf(&cpu.LogBuf, "m_Absolute_Long: EA $%06x\n", EA)
 
@@ -981,9 +981,9 @@ func (cpu *CPU) Step() (int, bool) {
 		arg16 = cpu.Bus.nRead16_wrap(0x00, uint16(arg8)+cpu.SP)
 		//fmt.Fprintf(&cpu.LogBuf, "m_Stack_Relative_Indirect_Y: arg16 $%04x ", arg16)
 		if cpu.X == 1 {
-			ea = (uint32(cpu.RDBR)<<16 | uint32(arg16)) + uint32(cpu.RYl)
+			ea = ((uint32(cpu.RDBR)<<16 | uint32(arg16)) + uint32(cpu.RYl)) & 0x00ffffff // wrap on 24bits
 		} else {
-			ea = (uint32(cpu.RDBR)<<16 | uint32(arg16)) + uint32(cpu.RY)
+			ea = ((uint32(cpu.RDBR)<<16 | uint32(arg16)) + uint32(cpu.RY)) & 0x00ffffff // wrap on 24bits
 		}
 		//fmt.Fprintf(&cpu.LogBuf, "EA $%06x ", EA)
 
